@@ -130,6 +130,29 @@ Proof. exact drop_lt_spec. Qed.
 Print Assumptions c18_sort_search_meaning.
 
 (* ------------------------------------------------------------------------------------------------
+   9. Configuration histories.  A running participant receives configurations one after the other
+      (service.setLastConfiguration: same id as the active one => ignored, otherwise the active configuration is
+      REPLACED).  When ids identify configurations, its state after any history (role swaps, additions, removals,
+      re-deliveries, returns to an earlier configuration, ...) is the LAST configuration delivered, so all its answers
+      equal those of a participant freshly started on that configuration: "given the same configuration" does not
+      depend on how a participant got there.  The correspondence check drives real services through such histories. *)
+Theorem c18_history_last : forall ups init,
+  ids_identify (init :: ups) -> run_history init ups = last ups init.
+Proof. exact run_history_last. Qed.
+Print Assumptions c18_history_last.
+
+Theorem c18_history_independent : forall PH VH KH i1 u1 i2 u2,
+  ids_identify (i1 :: u1) -> ids_identify (i2 :: u2) -> last u1 i1 = last u2 i2 ->
+  table PH VH (c_nodes (run_history i1 u1)) = table PH VH (c_nodes (run_history i2 u2)) /\
+  forall p s,
+    members PH VH KH (c_nodes (run_history i1 u1)) s = members PH VH KH (c_nodes (run_history i2 u2)) s /\
+    node_ids PH VH KH (c_nodes (run_history i1 u1)) p s = node_ids PH VH KH (c_nodes (run_history i2 u2)) p s /\
+    is_responsible PH VH KH (c_nodes (run_history i1 u1)) p s
+      = is_responsible PH VH KH (c_nodes (run_history i2 u2)) p s.
+Proof. exact history_independent. Qed.
+Print Assumptions c18_history_independent.
+
+(* ------------------------------------------------------------------------------------------------
    Non-vacuity: a concrete ring (10 partitions, 3 virtual nodes per member, 4 sync nodes + a coordinator + a node with
    an unknown type) on which the hypotheses hold, overflow handling is exercised, and the predicate discriminates. *)
 Definition ex_PH : list N := [5; 93; 41; 77; 12; 60; 28; 99; 3; 50]%N.
@@ -186,3 +209,22 @@ Example c18_spec_discriminates :
   /\ spec_C18 ex_cfg 3%nat [mkObs 7 ex_space1 k 3 [2; 1] false] = false
   /\ spec_C18 ex_cfg 3%nat [mkObs 7 ex_space2 [121; 46; 107; 49]%N 3 [2; 1] true] = false.
 Proof. vm_compute. repeat split. Qed.
+
+(* histories: A (sync nodes 4,2,7,1) -> B (role swap: 7 demoted to a file node, the coordinator 9 promoted; same NUMBER
+   of sync nodes, every sync node of B known in A) -> B re-delivered -> A -> B.  The state is B, the table is B's and
+   differs from A's (a participant that kept A's ring would disagree with a freshly started one). *)
+Definition ex_confA : conf := mkConf 1 ex_cfg.
+Definition ex_confB : conf :=
+  mkConf 2 [mkNode 4 [1] [0]; mkNode 9 [] [4; 0]; mkNode 2 [2; 3] [1; 0]; mkNode 7 [] [2]; mkNode 5 [] [8]; mkNode 1 [4] [0; 2]]%N.
+Example c18_history_nonvacuous :
+  ids_identify [ex_confA; ex_confB; ex_confB; ex_confA; ex_confB]
+  /\ run_history ex_confA [ex_confB; ex_confB; ex_confA; ex_confB] = ex_confB
+  /\ run_history ex_confB [] = ex_confB
+  /\ table ex_PH ex_VH (c_nodes ex_confB) <> table ex_PH ex_VH (c_nodes ex_confA)
+  /\ length (tree_ids (c_nodes ex_confB)) = length (tree_ids (c_nodes ex_confA)).
+Proof.
+  split; [|vm_compute; repeat split; discriminate].
+  intros a b Ha Hb Hid. cbn [In] in Ha, Hb.
+  repeat (destruct Ha as [<-|Ha]; [|]); try contradiction;
+  repeat (destruct Hb as [<-|Hb]; [|]); try contradiction; try reflexivity; discriminate Hid.
+Qed.
